@@ -287,7 +287,10 @@ def c14_group(seed, idx, algo):
                 # same class, ONE constructor argument changed: state shared between instances and keyed on
                 # only part of the configuration shows up here
                 alt = ADAPTERS[algo].gen_params(rnd, meta["T"])
-                keys = [k for k in meta["params"] if k in alt and alt[k] != meta["params"][k] and k not in ("base", "n", "rounds", "h_max")]
+                keys = [k for k in meta["params"] if k in alt and alt[k] != meta["params"][k] and k not in ("base", "h_max")]
+                if algo == "T_HOO" and alt.get("rounds") == meta["params"].get("rounds"):
+                    alt["rounds"] = meta["params"]["rounds"] * 7 + 3
+                    keys.append("rounds")
                 if keys:
                     k = rnd.choice(keys)
                     meta2 = dict(meta, params=dict(meta["params"], **{k: alt[k]}))
